@@ -85,7 +85,7 @@ pub fn e1_jobs(prop: &str, tier: Tier) -> (Vec<E1Job>, usize) {
         "C04x" => vec![],
         "C18" => if q { vec![pill(4), pc(7), pbs(3), pn(3), paj(4), pc3(9)] } else { vec![pill(5), pc(9), pc3(10), paj(5), pb(4), pn(4), pe(1, true, 2)] },
         "C19" => if q { vec![pa15(3), pb(3), pd(5), pe(1, true, 2), pc(5), paj(4)] } else { vec![pa(3), pb(4), pd(6), pe(1, true, 2), pc(7), pf(4), paj(5), paj5(4)] },
-        "C20" => if q { vec![pn(5), pb(3), pc(7), pd(5), pe(1, true, 2), paj(4), pa15(3)] } else { vec![pn(5), pb(4), pc(8), pd(6), pe(1, true, 2)] },
+        "C20" => if q { vec![pn(5), pill(4), pb(3), pc(7), pd(5), pe(1, true, 2), paj(4), pa15(3)] } else { vec![pn(5), pb(4), pc(8), pd(6), pe(1, true, 2)] },
         _ => vec![],
     };
     let mut jobs = jobs;
@@ -525,6 +525,27 @@ pub fn e2_jobs(prop: &str, tier: Tier) -> Vec<E2Job> {
                 }
                 jobs.push(E2Job { label: "5-6 thread-local systems next to two ordinary ones".into(), scenarios: scen(&plans, &[Mode::Dispatch, Mode::Async], &[1, 2]), bounds: b(1), delay: false });
             }
+            {
+                // an ordinary system panics: thread-local systems of that dispatch must not start
+                let mut scs = Vec::new();
+                for p in tl(2).into_iter().chain(tl(3).into_iter().filter(|p| p.len() == 3).take(200)) {
+                    let info = PlanInfo::of(&p);
+                    let has_tl = info.nodes.iter().any(|n| n.kind == crate::spec::Kind::Tl && n.parent.is_none());
+                    if !has_tl {
+                        continue;
+                    }
+                    for n in &info.nodes {
+                        if n.kind == crate::spec::Kind::Sys && n.parent.is_none() {
+                            for at_fetch in [false, true] {
+                                let mut s = Scenario::plain(p.clone(), Mode::Dispatch, 2);
+                                s.panics = vec![(n.id, at_fetch)];
+                                scs.push(s);
+                            }
+                        }
+                    }
+                }
+                jobs.push(E2Job { label: "thread-local plans with a panicking ordinary system".into(), scenarios: scs, bounds: b(1), delay: false });
+            }
             jobs.push(E2Job { label: "thread-local plans, 3 ops".into(), scenarios: scen(&tl(3).into_iter().filter(|p| p.len() == 3).collect::<Vec<_>>(), &[Mode::Dispatch, Mode::Async], &[1]), bounds: b(if q { 1 } else { 2 }), delay: false });
             if !q {
                 jobs.push(E2Job { label: "thread-local plans, 4 ops".into(), scenarios: scen(&tl(4).into_iter().filter(|p| p.len() == 4).collect::<Vec<_>>(), &[Mode::Dispatch], &[1]), bounds: b(1), delay: false });
@@ -674,6 +695,18 @@ fn c11_scenarios(w: usize, n: usize) -> Vec<(String, Scenario)> {
             v.push((format!("{} / {} / width {} / {} threads", label, mode.label(), w, n), s));
         }
     }
+    // dispatch called from a worker of a foreign one-thread pool: the dispatcher's own pool must be used
+    for user in [true, false] {
+        let mut s = Scenario::plain(wide_stage(w), Mode::Dispatch, 2);
+        if user {
+            s.user_pool = Some(n);
+        } else {
+            s.default_threads = Some(n);
+        }
+        s.foreign_pool = Some(1);
+        s.rendezvous = Some((ids.clone(), w as u16));
+        v.push((format!("dispatch from a worker of a foreign 1-thread pool / width {} / own pool of {} threads", w, n), s));
+    }
     // batch-inner stage
     let inner = wide_stage(w);
     let batch = vec![Op::Batch(crate::spec::BatchSpec { name: "b".into(), deps: vec![], ctrl: crate::spec::CtrlData::Unit, times: 1, multi: false, fetch_data: false, inner })];
@@ -820,6 +853,33 @@ pub fn run_c15(tier: Tier, budget: Duration, frag: &mut Frag) {
     } else {
         vec![(3, vec![0, 1, 2, 3], 6), (4, vec![0, 1, 2], 6), (5, vec![0, 1], 3), (5, vec![0, 1, 2], 1)]
     };
+    // a background system panics (the pool has a panic handler: the stand-in swallows the payload): no
+    // accessor may then return normally as if the dispatch had completed
+    {
+        let mut scs = Vec::new();
+        for (_, p) in plans.iter().take(6) {
+            let info = PlanInfo::of(p);
+            for n in &info.nodes {
+                if n.kind != crate::spec::Kind::Sys {
+                    continue;
+                }
+                for s in ["DW", "DX", "DO", "DM", "DR", "DRW", "DD", "DWD", "DS"] {
+                    let mut sc = Scenario::plain(p.clone(), Mode::Async, 0);
+                    sc.script = Some(s.to_string());
+                    sc.panics = vec![(n.id, false)];
+                    scs.push(sc);
+                }
+            }
+        }
+        let t0 = Instant::now();
+        let opts = ExploreOpts { bounds: vec![0, 1], all_points: false, deadline: t0 + budget / 4, max_execs: u64::MAX, keep_traces: 0, deadlock_prop: Some("C15"), delay_mode: false };
+        let r = run_scenarios(&scs, Mon::default(), &opts);
+        frag.parts.push(json!({"engine":"E2 schedmc","scenarios":"a background system panics on the first dispatch: 9 scripts x every system of 6 plans","n_scenarios":scs.len(),"scenarios_completed":r.completed,"schedules":r.executions,"states":r.nodes,"transitions":r.transitions,"deadlocks":r.deadlocks,"cap_hit":r.capped,"wall_s":t0.elapsed().as_secs_f64()}));
+        frag.states += r.nodes;
+        frag.transitions += r.transitions;
+        frag.exhaustive &= !r.capped;
+        frag.col.merge(r.col);
+    }
     let njobs = jobs.len();
     for (k, (len, bounds, nplans)) in jobs.into_iter().enumerate() {
         let mut scs = Vec::new();
